@@ -26,7 +26,8 @@ import (
 type exprSite struct {
 	name   string // Lean def
 	fn     string // "Recv.name" or "name"
-	kind   string // "cond": if-condition containing anchor; "assign": RHS of `anchor = …` / `anchor := …`; "arg": first argument of the call `anchor(…)`
+	kind   string // "cond": if-condition containing anchor; "assign": RHS of `anchor = …` / `anchor := …`; "arg": first argument of the call `anchor(…)`;
+	// "ret": the single result of a `return` whose text contains anchor; "incr": RHS of `anchor += …`
 	anchor string
 	index  int // which of the matches (source order)
 	count  int // how many matches the function must have
@@ -87,6 +88,26 @@ var exprSites = []exprSite{
 	{"sd_prioShutdown", "Association.gatherOutboundPriorityPackets", "cond", "a.willSendShutdown", 2, 3},
 	{"sd_dataGap", "Association.handleData", "assign", "gapDetected", 0, 1},
 	{"sd_dataSackNow", "Association.handleData", "assign", "sackNow", 0, 2},
+	// receive half: advertised credit (getMyReceiverWindowCredit), admission at a full buffer (acceptPayloadData),
+	// gap / immediate-ack decisions (handleData, handlePeerLastTSNAndAcknowledgement), stale FORWARD-TSN, deferred reset
+	{"rwnd_addStream", "Association.getMyReceiverWindowCredit", "incr", "bytesQueued", 0, 1},
+	{"rwnd_exhausted", "Association.getMyReceiverWindowCredit", "cond", "bytesQueued", 0, 1},
+	{"rwnd_credit", "Association.getMyReceiverWindowCredit", "ret", "bytesQueued", 0, 1},
+	{"accept_hasCredit", "Association.acceptPayloadData", "cond", "a.getMyReceiverWindowCredit()", 0, 1},
+	{"accept_dropAtFullBuffer", "Association.acceptPayloadData", "cond", "lastTSN", 0, 1},
+	{"data_canHandle", "Association.canHandleData", "ret", "isDataReceiveState", 0, 1},
+	{"data_wrongKind", "Association.handleData", "cond", "a.useInterleaving", 0, 1},
+	{"data_expectedTSN", "Association.handleData", "assign", "expectedTSN", 0, 1},
+	{"data_gapDetected", "Association.handleData", "assign", "gapDetected", 0, 1},
+	{"data_sackNow", "Association.handleData", "assign", "sackNow", 0, 2},
+	{"ack_hasPacketLoss", "Association.handlePeerLastTSNAndAcknowledgement", "assign", "hasPacketLoss", 0, 1},
+	{"ack_immediate", "Association.handlePeerLastTSNAndAcknowledgement", "cond", "sackImmediately", 0, 1},
+	{"ack_mayDelay", "Association.handlePeerLastTSNAndAcknowledgement", "cond", "ackModeAlwaysDelay", 0, 1},
+	{"ack_wasIdle", "Association.handlePeerLastTSNAndAcknowledgement", "cond", "ackStateIdle", 0, 1},
+	{"fwd_stale", "Association.handleForwardTSN", "cond", "sna32LTE", 0, 1},
+	{"ifwd_stale", "Association.handleIForwardTSN", "cond", "sna32LTE", 0, 1},
+	{"reset_due", "Association.resetStreamsIfAny", "cond", "resetRequest.senderLastTSN", 0, 1},
+	{"sack_pending", "Association.gatherOutboundSackPackets", "cond", "a.ackState", 0, 1},
 }
 
 type leaf struct{ name, lty string }
@@ -194,6 +215,13 @@ func (c *ctx) findSite(s exprSite) (ast.Expr, string) {
 			if s.kind == "assign" && len(x.Lhs) == 1 && len(x.Rhs) == 1 && exprText(x.Lhs[0]) == s.anchor &&
 				(x.Tok == token.ASSIGN || x.Tok == token.DEFINE) {
 				found = append(found, x.Rhs[0])
+			}
+			if s.kind == "incr" && len(x.Lhs) == 1 && len(x.Rhs) == 1 && exprText(x.Lhs[0]) == s.anchor && x.Tok == token.ADD_ASSIGN {
+				found = append(found, x.Rhs[0])
+			}
+		case *ast.ReturnStmt:
+			if s.kind == "ret" && len(x.Results) == 1 && strings.Contains(exprText(x.Results[0]), s.anchor) {
+				found = append(found, x.Results[0])
 			}
 		case *ast.CallExpr:
 			if s.kind == "arg" && exprText(x.Fun) == s.anchor && len(x.Args) >= 1 {
